@@ -345,6 +345,10 @@ func (c *C) Mail(ctx context.Context, from string, opts smtp.MailOptions) error 
 		return c.wrapClientErr(err, c.serverName)
 	}
 
+	// New transaction (the connection may be reused), forget recipients of the
+	// previous one.
+	c.rcpts = nil
+
 	return nil
 }
 
@@ -376,6 +380,9 @@ func (c *C) Rcpt(ctx context.Context, to string, opts smtp.RcptOptions) error {
 		// TODO: DSN support
 	}
 
+	// Rcpts() reports the address as it was given to us.
+	origTo := to
+
 	// If necessary, the extension flag is enabled in Start.
 	if ok, _ := c.cl.Extension("SMTPUTF8"); !address.IsASCII(to) && !ok {
 		var err error
@@ -397,7 +404,7 @@ func (c *C) Rcpt(ctx context.Context, to string, opts smtp.RcptOptions) error {
 		return c.wrapClientErr(err, c.serverName)
 	}
 
-	c.rcpts = append(c.rcpts, to)
+	c.rcpts = append(c.rcpts, origTo)
 
 	return nil
 }
